@@ -1,4 +1,5 @@
 """C07 - regularization matrices are symmetric PSD (PD where stated) with the stated quadratic form; blocks in object order."""
+import copy
 import itertools
 
 import numpy as np
@@ -16,9 +17,17 @@ RULE = (
     "its matrix compared with the reference assembled from an independent adjacency (4-connectivity written here; "
     "empty-circumcircle triangulation written here), plus symmetry/size/PSD/PD/log-det (log-det read from a real "
     "aa.Inversion). 'B' = (mask, ordered list of 1..3 distinct linear-object kinds, every regularization on/off pattern, "
-    "formalism): inversion.regularization_matrix/_reduced against the block layout. non-trivial = S: mesh is non-square or "
-    "Delaunay, or the scheme is adaptive with a non-constant weight vector; B: list has >= 2 objects with at least one "
-    "unregularized and one regularized object"
+    "formalism): inversion.regularization_matrix/_reduced against the block layout, read first, and read again (together "
+    "with the arrays obtained at the first read) after curvature_reg_matrix and reconstruction have been evaluated. "
+    "'P' = (mask, ordered list of 2..3 kinds with >= 1 regularized, formalism): one aa.Preloads(regularization_matrix=H) "
+    "shared by two successive inversions. 'R' = (mask, object kind, scheme transition {S->S', S->None, None->S}, layout "
+    "{same object, copy.copy + reassign alone, original next to the copy}, formalism): LinearObj.regularization_matrix is "
+    "read, the regularization attribute is re-assigned, and the inversion must contain the block of the CURRENT scheme. "
+    "'U' = (data plane, ordered pair of different meshes, scheme, parameter tuple, adapt kind): ONE scheme instance is "
+    "applied to mesh A, then to mesh B, then to A again; every matrix must equal the one of a fresh instance and obey all "
+    "laws. non-trivial = S: mesh is non-square or Delaunay, or the scheme is adaptive with a non-constant weight vector; "
+    "B: list has >= 2 objects with at least one unregularized and one regularized object; P, R, U: always (every case is a "
+    "two-step history)"
 )
 ASSUMPTIONS = [
     "a quadratic form is determined by its (symmetric) matrix, so the stated x^T H x identities are checked by comparing "
@@ -40,9 +49,13 @@ BOUNDS = {
              "{0.1,1,7}, signal scales {0.5,1,2}, kernel scales {0.4,0.7,1.0} x mesh spacing, adapt images {positive, with zeros, "
              "peaked}; data planes: non-adaptive schemes 2, adaptive schemes 4 (of 5 masks x sub 1,2 x identity/warp); all nine "
              "schemes (split-cross on Delaunay only). B: 7x7 frame/3x3 PSF, 2 masks, every ordered list of 1..3 distinct kinds "
-             "of {rectA,rectB,del,func,funcS} x every on/off pattern x use_w_tilde on/off",
+             "of {rectA,rectB,del,func,funcS} x every on/off pattern x use_w_tilde on/off. P: every ordered pair of kinds x the 3 "
+             "patterns with >= 1 regularized + 4 triples, 1 mask, both formalisms. R: 5 kinds x 3 transitions x 3 layouts x both "
+             "formalisms, 1 mask. U: 9 mesh pairs (rect 3x3/3x5/5x3/4x4, Delaunay menus; equal and unequal sizes) x 13 "
+             "scheme/parameter tuples (split-cross on the 3 Delaunay pairs only)",
     "thorough": "S: rectangular meshes 3..7 x 3..7 (25 shapes), 8 Delaunay menus x 3 jitter variants; same value menus with the "
-                "full coefficient-pair grids; all 20 data planes for adaptive schemes, 4 for the others. B: as quick on 3 masks",
+                "full coefficient-pair grids; all 20 data planes for adaptive schemes, 4 for the others. B: as quick on 3 masks; "
+                "P, R: as quick on 3 masks; U: as quick on 2 data planes",
 }
 
 COEFFS = [0.1, 1.0, 7.0]
@@ -329,6 +342,56 @@ def cases(tier, seed):
         for mname in bmasks:
             for wt in (False, True):
                 yield ["B", mname, ol, wt, seed]
+    # two-step histories (each one lives inside ONE case)
+    hmasks = ["ragged"] if tier == "quick" else ["ragged", "full", "two"]
+    for mname in hmasks:
+        for kind in KINDS:
+            for trans in TRANSITIONS:
+                for layout in LAYOUTS:
+                    for wt in (False, True):
+                        yield ["R", mname, kind, trans, layout, wt, seed]
+    for mname in hmasks:
+        for ol in preload_lists():
+            for wt in (False, True):
+                yield ["P", mname, ol, wt, seed]
+    uplanes = [["ragged", 2, "warp"]] if tier == "quick" else [["ragged", 2, "warp"], ["full", 1, "identity"]]
+    for plane in uplanes:
+        for scheme, params, adapt in REUSE_SCHEMES:
+            for ma, mb in (REUSE_PAIRS_DEL if scheme in SPLIT else REUSE_PAIRS):
+                yield ["U", plane, ma, mb, scheme, params, adapt, seed]
+
+
+TRANSITIONS = ["S-S", "S-N", "N-S"]  # scheme before the first read -> scheme assigned afterwards (N = None)
+LAYOUTS = ["same", "copy", "copy-pair"]
+
+REUSE_PAIRS = [
+    [["rect", 3, 3], ["rect", 3, 5]], [["rect", 3, 3], ["rect", 5, 3]], [["rect", 3, 3], ["rect", 4, 4]],
+    [["rect", 3, 3], ["del", "fix9", 0]],  # equal size, different adjacency
+    [["rect", 3, 5], ["rect", 5, 3]],      # equal size, different adjacency
+    [["rect", 4, 4], ["rect", 3, 3]], [["del", "hex7", 0], ["rect", 3, 3]],
+    [["del", "quad5", 0], ["del", "rand8", 0]], [["del", "lat9", 0], ["del", "fix9", 1]],
+]
+REUSE_PAIRS_DEL = [p for p in REUSE_PAIRS if p[0][0] == "del" and p[1][0] == "del"] + [[["del", "rand8", 1], ["del", "pent6", 0]]]
+REUSE_SCHEMES = [
+    ["Constant", [1.0], "-"], ["Constant", [7.0], "-"], ["Zeroth", [1.0], "-"], ["ConstantZeroth", [0.1, 7.0], "-"],
+    ["GaussianKernel", [1.0, 0.7], "-"], ["GaussianKernel", [7.0, 1.0], "-"],
+    ["ExponentialKernel", [1.0, 0.7], "-"], ["ExponentialKernel", [7.0, 1.0], "-"],
+    ["AdaptiveBrightness", [0.1, 7.0, 1.0], "pos"], ["AdaptiveBrightness", [7.0, 0.1, 2.0], "peak"],
+    ["BrightnessZeroth", [1.0, 0.5], "zeros"],
+    ["ConstantSplit", [1.0], "-"], ["AdaptiveBrightnessSplit", [1.0, 7.0, 0.5], "pos"],
+]
+
+
+def preload_lists():
+    out = []
+    for kinds in itertools.permutations(KINDS, 2):
+        for regs in ([True, True], [True, False], [False, True]):
+            out.append([list(kinds), regs])
+    out += [
+        [["rectA", "func", "del"], [True, False, True]], [["funcS", "rectB", "rectA"], [False, True, True]],
+        [["del", "rectA", "rectB"], [True, True, True]], [["func", "rectA", "funcS"], [False, True, False]],
+    ]
+    return out
 
 
 # ----------------------------------------------------------------------------- oracles
@@ -346,13 +409,13 @@ def entry_close(H, ref, rtol=1e-10):
     return bool(np.all(np.abs(H - ref) <= rtol * np.abs(ref) + 1e-14 * max(_absmax(ref), 1e-300)))
 
 
-def general_laws(v, name, H, n, strict):
+def general_laws(v, name, H, n, strict, sfx=""):
     """size, finiteness, symmetry, PSD and (strict) PD. Returns True when H is usable for the further checks."""
-    ok = v.ok(isinstance(H, np.ndarray) and H.ndim == 2 and H.shape == (n, n), "%s:size" % name,
+    ok = v.ok(isinstance(H, np.ndarray) and H.ndim == 2 and H.shape == (n, n), "%s:size%s" % (name, sfx),
               lambda: "matrix shape %s, linear object has %d parameters" % (getattr(H, "shape", None), n))
     if not ok:
         return False
-    if not v.ok(bool(np.all(np.isfinite(H))), "%s:not-finite" % name, "non-finite entries"):
+    if not v.ok(bool(np.all(np.isfinite(H))), "%s:not-finite%s" % (name, sfx), "non-finite entries"):
         return False
     sc = max(_absmax(H), 1e-300)
     asym = _absmax(H - H.T) / sc
@@ -363,8 +426,8 @@ def general_laws(v, name, H, n, strict):
     symtol = 1e-12
     if name in ("GaussianKernel", "ExponentialKernel") and ev[0] > 0:
         symtol = max(1e-12, 20.0 * 2.2e-16 * (ev[-1] / ev[0]))
-    v.ok(asym <= symtol, "%s:not-symmetric" % name, lambda: "max|H-H^T|/max|H| = %.3e (tolerance %.1e)" % (asym, symtol))
-    v.ok(ev[0] >= -1e-10 * nrm, "%s:not-psd" % name, lambda: "min eigenvalue %.6e, ||H||=%.3e" % (ev[0], nrm))
+    v.ok(asym <= symtol, "%s:not-symmetric%s" % (name, sfx), lambda: "max|H-H^T|/max|H| = %.3e (tolerance %.1e)" % (asym, symtol))
+    v.ok(ev[0] >= -1e-10 * nrm, "%s:not-psd%s" % (name, sfx), lambda: "min eigenvalue %.6e, ||H||=%.3e" % (ev[0], nrm))
     if strict:
         try:
             np.linalg.cholesky(H)
@@ -372,7 +435,7 @@ def general_laws(v, name, H, n, strict):
         except np.linalg.LinAlgError:
             chol = False
         sign, _ = np.linalg.slogdet(H)
-        v.ok(chol and sign > 0, "%s:not-pd" % name,
+        v.ok(chol and sign > 0, "%s:not-pd%s" % (name, sfx),
              lambda: "cholesky %s, slogdet sign %s, min eigenvalue %.6e, ||H||=%.3e" % ("ok" if chol else "FAILED", sign, ev[0], nrm))
     return True
 
@@ -383,6 +446,40 @@ def logdet_tol(H):
     cond = max(abs(ev[-1]), abs(ev[0])) / lo
     ld = np.linalg.slogdet(H)[1]
     return ld, 1e-8 * (1.0 + abs(ld)) + 20.0 * np.finfo(float).eps * cond
+
+
+def stated_matrix(v, name, params, H, w, n, edges, sfx=""):
+    """The stated / documented matrices, entrywise (class <Scheme>:matrix<sfx>)."""
+    cls = "%s:matrix%s" % (name, sfx)
+    if name == "Constant":
+        c2 = params[0] ** 2
+        ref = pair_matrix(n, edges, lambda i, j: c2)
+        v.ok(entry_close(H, ref), cls, lambda: "max|H - (c^2 L + 1e-8 I)| = %s (c=%s)" % (dom.maxdiff(H, ref), params[0]))
+        rs = H.sum(axis=1)
+        v.ok(bool(np.all(np.abs(rs - 1e-8) <= 1e-11 * (1.0 + _absmax(H)))), cls,
+             lambda: "row sums (x = 1: x^T H x = n*1e-8) are %s" % rs[:6])
+    elif name == "ConstantZeroth":
+        cn2, cz2 = params[0] ** 2, params[1] ** 2
+        ref = pair_matrix(n, edges, lambda i, j: cn2, ridge=1e-8 + cz2)
+        v.ok(entry_close(H, ref), cls, lambda: "max|H - (cn^2 L + (cz^2+1e-8) I)| = %s" % dom.maxdiff(H, ref))
+    elif name == "Zeroth":
+        c2 = params[0] ** 2
+        off = H - np.diag(np.diag(H))
+        d = np.diag(H)
+        okd = bool(np.all(np.abs(d - c2) <= 1e-10 * c2) or np.all(np.abs(d - c2 - 1e-8) <= 1e-10 * c2))
+        v.ok(okd and not off.any(), cls, lambda: "diag %s (want %s [+1e-8]), max off-diagonal %s" % (d[:5], c2, _absmax(off)))
+    elif name == "BrightnessZeroth":
+        ref = np.diag(w ** 2) if w.shape == (n,) else None
+        v.ok(ref is not None and entry_close(H, ref), cls, lambda: "max|H - diag(w^2)| = %s" % dom.maxdiff(H, ref))
+    elif name == "AdaptiveBrightness":
+        if w.shape == (n,):
+            w2 = w ** 2
+            ref = pair_matrix(n, edges, lambda i, j: w2[i] + w2[j])
+            v.ok(entry_close(H, ref), cls,
+                 lambda: "max|H - sum_pairs (w_i^2+w_j^2)(e_i-e_j)(e_i-e_j)^T - 1e-8 I| = %s, max|H| = %s" % (dom.maxdiff(H, ref), _absmax(H)))
+            rs = H.sum(axis=1)
+            v.ok(bool(np.all(np.abs(rs - 1e-8) <= 1e-11 * (1.0 + _absmax(H)))), cls,
+                 lambda: "row sums (x = 1: x^T H x = n*1e-8) are %s" % rs[:6])
 
 
 def run_scheme(v, case):
@@ -405,36 +502,7 @@ def run_scheme(v, case):
     if not general_laws(v, name, H, n, strict):
         return
 
-    # ---- the stated / documented matrices
-    if name == "Constant":
-        c2 = params[0] ** 2
-        ref = pair_matrix(n, edges, lambda i, j: c2)
-        v.ok(entry_close(H, ref), "Constant:matrix", lambda: "max|H - (c^2 L + 1e-8 I)| = %s (c=%s)" % (dom.maxdiff(H, ref), params[0]))
-        rs = H.sum(axis=1)
-        v.ok(bool(np.all(np.abs(rs - 1e-8) <= 1e-11 * (1.0 + _absmax(H)))), "Constant:matrix",
-             lambda: "row sums (x = 1: x^T H x = n*1e-8) are %s" % rs[:6])
-    elif name == "ConstantZeroth":
-        cn2, cz2 = params[0] ** 2, params[1] ** 2
-        ref = pair_matrix(n, edges, lambda i, j: cn2, ridge=1e-8 + cz2)
-        v.ok(entry_close(H, ref), "ConstantZeroth:matrix", lambda: "max|H - (cn^2 L + (cz^2+1e-8) I)| = %s" % dom.maxdiff(H, ref))
-    elif name == "Zeroth":
-        c2 = params[0] ** 2
-        off = H - np.diag(np.diag(H))
-        d = np.diag(H)
-        okd = bool(np.all(np.abs(d - c2) <= 1e-10 * c2) or np.all(np.abs(d - c2 - 1e-8) <= 1e-10 * c2))
-        v.ok(okd and not off.any(), "Zeroth:matrix", lambda: "diag %s (want %s [+1e-8]), max off-diagonal %s" % (d[:5], c2, _absmax(off)))
-    elif name == "BrightnessZeroth":
-        ref = np.diag(w ** 2) if w.shape == (n,) else None
-        v.ok(ref is not None and entry_close(H, ref), "BrightnessZeroth:matrix", lambda: "max|H - diag(w^2)| = %s" % dom.maxdiff(H, ref))
-    elif name == "AdaptiveBrightness":
-        if w.shape == (n,):
-            w2 = w ** 2
-            ref = pair_matrix(n, edges, lambda i, j: w2[i] + w2[j])
-            v.ok(entry_close(H, ref), "AdaptiveBrightness:matrix",
-                 lambda: "max|H - sum_pairs (w_i^2+w_j^2)(e_i-e_j)(e_i-e_j)^T - 1e-8 I| = %s, max|H| = %s" % (dom.maxdiff(H, ref), _absmax(H)))
-            rs = H.sum(axis=1)
-            v.ok(bool(np.all(np.abs(rs - 1e-8) <= 1e-11 * (1.0 + _absmax(H)))), "AdaptiveBrightness:matrix",
-                 lambda: "row sums (x = 1: x^T H x = n*1e-8) are %s" % rs[:6])
+    stated_matrix(v, name, params, H, w, n, edges)
 
     # ---- through a real inversion: single block and the log-determinant the evidence uses
     scheme2 = make_scheme(aa, name, params, spacing)
@@ -504,7 +572,10 @@ def run_blocks(v, case):
             blocks.append(None)
     fx, objs = _block_objs(aa, mname, kinds, regs, seed)
     inv = aa.Inversion(dataset=fx["ds"], linear_obj_list=objs, settings=fix_inv.settings(aa, wt))
-    H = np.array(inv.regularization_matrix, dtype=float)
+    # first read: reduced, then full; the returned objects are HELD (not copied) for the after-solve comparison below
+    held_r = inv.regularization_matrix_reduced
+    held = inv.regularization_matrix
+    H = np.array(held, dtype=float)
     P = sum(widths)
     if not v.ok(H.shape == (P, P), "inversion:block-placement", lambda: "regularization_matrix shape %s, total parameters %d" % (H.shape, P)):
         return
@@ -528,7 +599,7 @@ def run_blocks(v, case):
         if r:
             keep += list(range(off, off + wd))
         off += wd
-    Hr = np.array(inv.regularization_matrix_reduced, dtype=float)
+    Hr = np.array(held_r, dtype=float)
     ref = H[np.ix_(keep, keep)] if keep else np.zeros((0, 0))
     v.ok(Hr.shape == ref.shape and dom.exact(Hr, ref), "inversion:reduced",
          lambda: "reduced shape %s vs %s (regularized parameters %d of %d), maxdiff %s" % (Hr.shape, ref.shape, len(keep), P, dom.maxdiff(Hr, ref)))
@@ -541,17 +612,266 @@ def run_blocks(v, case):
                 ld_ref, tol = ld_ref + l, tol + t
         try:
             ld = float(np.real(inv.log_det_regularization_matrix_term))
+            v.ok(np.isfinite(ld) and abs(ld - ld_ref) <= tol, "inversion:log-det",
+                 lambda: "log_det_regularization_matrix_term = %.12g, sum of slogdet over regularized blocks = %.12g, tol %.3g" % (ld, ld_ref, tol))
         except Exception as e:
             v.fail("inversion:log-det", "log_det_regularization_matrix_term raised %r" % (e,))
-            return
-        v.ok(np.isfinite(ld) and abs(ld - ld_ref) <= tol, "inversion:log-det",
-             lambda: "log_det_regularization_matrix_term = %.12g, sum of slogdet over regularized blocks = %.12g, tol %.3g" % (ld, ld_ref, tol))
+
+    # ---- read order: the same block-diagonal matrix must be reported after F+H and the solution have been evaluated, and
+    # the arrays handed out at the first read must still hold it (F+H must not be accumulated into the cached H)
+    if any(b is not None and b.shape != (wd, wd) for b, wd in zip(blocks, widths)):
+        return
+    E = expected_blocks(widths, blocks)
+    Er = E[np.ix_(keep, keep)] if keep else np.zeros((0, 0))
+    try:
+        inv.curvature_reg_matrix
+        inv.reconstruction
+        solved = "solved"
+    except aa.exc.InversionException:
+        solved = "solver-exception"
+    v.outcome += "/" + solved
+    for what, got, want, cls in (
+        ("regularization_matrix_reduced re-read", inv.regularization_matrix_reduced, Er, "inversion:reduced:after-solve"),
+        ("regularization_matrix re-read", inv.regularization_matrix, E, "inversion:regularization_matrix:after-solve"),
+        ("array obtained from regularization_matrix_reduced at the first read", held_r, Er, "inversion:reduced:after-solve"),
+        ("array obtained from regularization_matrix at the first read", held, E, "inversion:regularization_matrix:after-solve"),
+    ):
+        g = np.array(got, dtype=float)
+        v.ok(g.shape == want.shape and dom.exact(g, want), cls,
+             lambda: "%s after curvature_reg_matrix/reconstruction (%s): shape %s vs %s, differs from the block-diagonal matrix by %s"
+             % (what, solved, g.shape, want.shape, dom.maxdiff(g, want) if g.shape == want.shape else "n/a"))
+
+
+def expected_blocks(widths, blocks):
+    """Block-diagonal matrix in object order; None = all-zero block."""
+    P = sum(widths)
+    E = np.zeros((P, P))
+    off = 0
+    for wd, b in zip(widths, blocks):
+        if b is not None:
+            E[off:off + wd, off:off + wd] = b
+        off += wd
+    return E
+
+
+def _keep(widths, regs):
+    keep, off = [], 0
+    for r, wd in zip(regs, widths):
+        if r:
+            keep += list(range(off, off + wd))
+        off += wd
+    return keep
+
+
+def _twin_block(aa, fx_args, kind, scheme):
+    """The scheme's own matrix on an independently built twin of the object (never the object under test)."""
+    if scheme is None:
+        return None
+    mname, seed = fx_args
+    fx = fix_inv.make_dataset(FRAME, KSHAPE, mask_bits(mname), seed=seed, sub=1)
+    o = fix_inv.make_obj(fx, kind, reg=False, seed=seed)
+    return np.array(scheme.regularization_matrix_from(linear_obj=o), dtype=float)
+
+
+def run_preload(v, case):
+    """One Preloads(regularization_matrix=H) object shared by two successive inversions: H must stay bitwise unchanged."""
+    import autoarray as aa
+
+    _, mname, (kinds, regs), wt, seed = case
+    v.nontrivial = True
+    v.outcome = "P/L%d/%s/%s" % (len(kinds), "".join("r" if r else "u" for r in regs), "wt" if wt else "map")
+    _, twins = _block_objs(aa, mname, kinds, regs, seed)
+    widths = [PARAMS[k] for k in kinds]
+    blocks = [np.array(o.regularization.regularization_matrix_from(linear_obj=o), dtype=float) if r else None for o, r in zip(twins, regs)]
+    E = expected_blocks(widths, blocks)
+    keep = _keep(widths, regs)
+    Er = E[np.ix_(keep, keep)]
+    pl = aa.Preloads(regularization_matrix=E.copy())
+    handed = pl.regularization_matrix
+    recs = []
+    for rnd in (1, 2):
+        fx, objs = _block_objs(aa, mname, kinds, regs, seed)
+        inv = aa.Inversion(dataset=fx["ds"], linear_obj_list=objs, settings=fix_inv.settings(aa, wt), preloads=pl)
+        H = np.array(inv.regularization_matrix, dtype=float)
+        Hr0 = np.array(inv.regularization_matrix_reduced, dtype=float)
+        v.ok(H.shape == E.shape and dom.exact(H, E), "inversion:regularization_matrix:preloaded",
+             lambda: "inversion %d with the shared preload: regularization_matrix differs from the block-diagonal matrix by %s" % (rnd, dom.maxdiff(H, E) if H.shape == E.shape else H.shape))
+        v.ok(Hr0.shape == Er.shape and dom.exact(Hr0, Er), "inversion:reduced:preloaded",
+             lambda: "inversion %d with the shared preload: reduced matrix differs by %s" % (rnd, dom.maxdiff(Hr0, Er) if Hr0.shape == Er.shape else Hr0.shape))
+        try:
+            inv.curvature_reg_matrix
+            rec = np.array(inv.reconstruction, dtype=float)
+            inv.regularization_term
+            inv.log_det_curvature_reg_matrix_term
+            inv.log_det_regularization_matrix_term
+        except aa.exc.InversionException:
+            rec = None
+        recs.append(rec)
+        now = pl.regularization_matrix
+        intact = now is handed and isinstance(now, np.ndarray) and now.shape == E.shape and dom.exact(np.array(now, dtype=float), E)
+        v.ok(intact, "inversion:preloaded-regularization_matrix-mutated",
+             lambda: "Preloads.regularization_matrix after inversion %d: same object %s, max change %s" % (rnd, now is handed, dom.maxdiff(np.array(now, dtype=float), E)))
+        if not intact:
+            v.outcome += "/preload-mutated"
+            return  # everything downstream (re-reads, the second inversion) is explained by the mutated preload
+        Hr = np.array(inv.regularization_matrix_reduced, dtype=float)
+        v.ok(Hr.shape == Er.shape and dom.exact(Hr, Er), "inversion:reduced:preloaded",
+             lambda: "inversion %d with the shared preload, after the solve: reduced matrix differs by %s" % (rnd, dom.maxdiff(Hr, Er) if Hr.shape == Er.shape else Hr.shape))
+    if recs[0] is not None and recs[1] is not None:
+        v.ok(dom.exact(recs[0], recs[1]), "inversion:preloaded-regularization_matrix-mutated",
+             lambda: "two identical inversions sharing one preload reconstruct differently: max diff %s" % dom.maxdiff(recs[0], recs[1]))
+    v.outcome += "/solved" if recs[0] is not None else "/solver-exception"
+
+
+def run_reassign(v, case):
+    """read LinearObj.regularization_matrix -> re-assign .regularization (same object / copy.copy) -> inversion blocks."""
+    import autoarray as aa
+
+    _, mname, kind, trans, layout, wt, seed = case
+    v.nontrivial = True
+    v.outcome = "R/%s/%s/%s" % (trans, layout, "wt" if wt else "map")
+    cls = "inversion:block-placement:after-regularization-reassigned"
+    wd = PARAMS[kind]
+
+    def scheme(tag, pos):
+        return block_scheme(aa, kind, pos) if tag == "S" else None
+
+    fx = fix_inv.make_dataset(FRAME, KSHAPE, mask_bits(mname), seed=seed, sub=1)
+    o = fix_inv.make_obj(fx, kind, reg=False, seed=seed)
+    o.regularization = scheme(trans[0], 0)
+    b_from = _twin_block(aa, (mname, seed), kind, scheme(trans[0], 0))
+    b_to = _twin_block(aa, (mname, seed), kind, scheme(trans[2], 1))
+
+    def same(got, b):
+        g = np.array(got, dtype=float)
+        want = np.zeros((wd, wd)) if b is None else b
+        return g.shape == want.shape and dom.exact(g, want), g, want
+
+    ok, g, want = same(o.regularization_matrix, b_from)  # the first read
+    v.ok(ok, "LinearObj.regularization_matrix", lambda: "%s with %s: first read differs from the scheme's matrix by %s" % (kind, trans[0], dom.maxdiff(g, want)))
+    if layout == "same":
+        o.regularization = scheme(trans[2], 1)
+        target, objs, blocks, regs = o, [o], [b_to], [trans[2] == "S"]
+    else:
+        target = copy.copy(o)
+        target.regularization = scheme(trans[2], 1)
+        if layout == "copy":
+            objs, blocks, regs = [target], [b_to], [trans[2] == "S"]
+        else:
+            objs, blocks, regs = [o, target], [b_from, b_to], [trans[0] == "S", trans[2] == "S"]
+    ok, g, want = same(target.regularization_matrix, b_to)
+    v.ok(ok, cls, lambda: "%s: regularization %s -> %s (%s): the object's regularization_matrix differs from its CURRENT scheme's matrix by %s"
+         % (kind, trans[0], trans[2], layout, dom.maxdiff(g, want)))
+    if layout == "copy-pair":
+        ok, g, want = same(o.regularization_matrix, b_from)
+        v.ok(ok, cls, lambda: "%s: original object after its copy was re-assigned: differs by %s" % (kind, dom.maxdiff(g, want)))
+    widths = [wd] * len(objs)
+    E = expected_blocks(widths, blocks)
+    keep = _keep(widths, regs)
+    Er = E[np.ix_(keep, keep)] if keep else np.zeros((0, 0))
+    inv = aa.Inversion(dataset=fx["ds"], linear_obj_list=objs, settings=fix_inv.settings(aa, wt))
+    H = np.array(inv.regularization_matrix, dtype=float)
+    v.ok(H.shape == E.shape and dom.exact(H, E), cls,
+         lambda: "%s: regularization %s -> %s (%s): inversion.regularization_matrix differs from the blocks of the current schemes by %s"
+         % (kind, trans[0], trans[2], layout, dom.maxdiff(H, E) if H.shape == E.shape else H.shape))
+    Hr = np.array(inv.regularization_matrix_reduced, dtype=float)
+    v.ok(Hr.shape == Er.shape and (Hr.size == 0 or dom.exact(Hr, Er)), cls,
+         lambda: "%s: regularization %s -> %s (%s): reduced matrix shape %s vs %s" % (kind, trans[0], trans[2], layout, Hr.shape, Er.shape))
+
+
+def kernel_residual(name, H, coefficient, scale, mapper):
+    """
+    max|H C / coefficient - I| for the documented covariance C_ij = k(d_ij) + 1e-8 delta_ij of the mesh centres/vertices of
+    `mapper` (k = exp(-d/scale) resp. exp(-d^2 / (2 scale^2))), and the tolerance 1e3*eps*cond(C) + 1e-9. Only used
+    self-calibrated (see run_reuse): the formula is demanded on the second mesh only if the first use obeys it.
+    """
+    pts = np.array(mapper.source_plane_mesh_grid, dtype=float).reshape(-1, 2)
+    d = np.sqrt(((pts[:, None, :] - pts[None, :, :]) ** 2).sum(axis=2))
+    C = np.exp(-d / scale) if name == "ExponentialKernel" else np.exp(-d ** 2 / (2.0 * scale ** 2))
+    C[np.arange(len(pts)), np.arange(len(pts))] += 1e-8
+    if H.shape != C.shape:
+        return np.inf, 0.0
+    res = _absmax(H @ C / coefficient - np.eye(len(pts)))
+    return res, 1e3 * np.finfo(float).eps * np.linalg.cond(C) + 1e-9
+
+
+def _mesh_tag(mesh):
+    return "del" if mesh[0] == "del" else "rect%dx%d" % (mesh[1], mesh[2])
+
+
+def run_reuse(v, case):
+    """ONE scheme instance on mesh A, then on mesh B, then on A again: each result must be that of a fresh instance."""
+    import autoarray as aa
+
+    _, plane, mesh_a, mesh_b, name, params, adapt, seed = case
+    v.nontrivial = True
+    sfx = ":reused-instance"
+    strict = name in STRICT
+    fxa, map_a, na, edges_a, spacing = build_mapper(plane, mesh_a, adapt, seed)
+    fxb, map_b, nb, edges_b, _ = build_mapper(plane, mesh_b, adapt, seed)
+    v.outcome = "U/%s/%s" % (name, "same-size" if na == nb else "other-size")
+    shared = make_scheme(aa, name, params, spacing)
+
+    def fresh(mesh):
+        _, mp, _, _, _ = build_mapper(plane, mesh, adapt, seed)
+        sc = make_scheme(aa, name, params, spacing)
+        return np.array(sc.regularization_matrix_from(linear_obj=mp), dtype=float), np.array(sc.regularization_weights_from(linear_obj=mp), dtype=float)
+
+    Ha = np.array(shared.regularization_matrix_from(linear_obj=map_a), dtype=float)
+    wa = np.array(shared.regularization_weights_from(linear_obj=map_a), dtype=float)
+    if general_laws(v, name, Ha, na, strict):
+        stated_matrix(v, name, params, Ha, wa, na, edges_a)
+    Ha_copy = Ha.copy()
+    # ---- second mesh, same instance
+    Hb_raw = shared.regularization_matrix_from(linear_obj=map_b)
+    Hb = np.array(Hb_raw, dtype=float)
+    wb = np.array(shared.regularization_weights_from(linear_obj=map_b), dtype=float)
+    Hbf, wbf = fresh(mesh_b)
+    v.ok(wb.shape == (nb,) and wb.shape == wbf.shape and dom.exact(wb, wbf), "%s:weights%s" % (name, sfx),
+         lambda: "weights on %s after %s: shape %s, fresh instance gives shape %s" % (_mesh_tag(mesh_b), _mesh_tag(mesh_a), wb.shape, wbf.shape))
+    if general_laws(v, name, Hb, nb, strict, sfx):
+        v.ok(Hbf.shape == Hb.shape and dom.exact(Hb, Hbf), "%s:matrix%s" % (name, sfx),
+             lambda: "instance first used on %s, then on %s: matrix differs from a fresh instance's by %s" % (_mesh_tag(mesh_a), _mesh_tag(mesh_b), dom.maxdiff(Hb, Hbf)))
+        stated_matrix(v, name, params, Hb, wb, nb, edges_b, sfx)
+        if name in ("GaussianKernel", "ExponentialKernel") and Ha.shape == (na, na):
+            # a process-wide memo defeats the fresh-instance comparison: the matrix must be the inverse covariance of THIS mesh
+            ra, ta = kernel_residual(name, Ha, params[0], shared.scale, map_a)
+            rb, tb = kernel_residual(name, Hb, params[0], shared.scale, map_b)
+            if ra <= ta and tb < 1e-3:  # calibrated on the first use; the second covariance is usably conditioned
+                v.ok(rb <= tb, "%s:matrix%s" % (name, sfx),
+                     lambda: "instance first used on %s, then on %s: max|H C/coefficient - I| = %.3e for the covariance C of the second mesh (tolerance %.1e; first use: %.1e)"
+                     % (_mesh_tag(mesh_a), _mesh_tag(mesh_b), rb, tb, ra))
+                v.outcome += "/kernel-formula"
+    # ---- back to the first mesh; the first result must not have been changed either
+    Ha2 = np.array(shared.regularization_matrix_from(linear_obj=map_a), dtype=float)
+    v.ok(Ha2.shape == Ha_copy.shape and dom.exact(Ha2, Ha_copy), "%s:matrix%s" % (name, sfx),
+         lambda: "instance used on %s, %s, %s again: third matrix differs from the first (shape %s vs %s)" % (_mesh_tag(mesh_a), _mesh_tag(mesh_b), _mesh_tag(mesh_a), Ha2.shape, Ha_copy.shape))
+    v.ok(dom.exact(Ha, Ha_copy), "%s:matrix%s" % (name, sfx), lambda: "matrix returned for the first mesh was modified by the later calls")
+    # ---- the same through the linear objects: two mappers of one inversion sharing the instance
+    shared2 = make_scheme(aa, name, params, spacing)
+    fx2, m_a, _, _, _ = build_mapper(plane, mesh_a, adapt, seed, regularization=shared2)
+    _, m_b, _, _, _ = build_mapper(plane, mesh_b, adapt, seed, regularization=shared2)
+    inv = aa.Inversion(dataset=fx2["ds"], linear_obj_list=[m_a, m_b], settings=fix_inv.settings(aa, False))
+    Hi = np.array(inv.regularization_matrix, dtype=float)
+    if Hbf.shape == (nb, nb) and Ha_copy.shape == (na, na):
+        E = expected_blocks([na, nb], [Ha_copy, Hbf])
+        v.ok(Hi.shape == E.shape and dom.exact(Hi, E), "inversion:block-placement%s" % sfx,
+             lambda: "two mappers (%s, %s) sharing one %s instance: inversion.regularization_matrix shape %s vs %s, differs by %s"
+             % (_mesh_tag(mesh_a), _mesh_tag(mesh_b), name, Hi.shape, E.shape, dom.maxdiff(Hi, E) if Hi.shape == E.shape else "n/a"))
 
 
 def run_case(case):
     v = V(ID)
     if case[0] == "S":
         run_scheme(v, case)
-    else:
+    elif case[0] == "B":
         run_blocks(v, case)
+    elif case[0] == "P":
+        run_preload(v, case)
+    elif case[0] == "R":
+        run_reassign(v, case)
+    elif case[0] == "U":
+        run_reuse(v, case)
+    else:
+        raise ValueError(case[0])
     return v.result()
